@@ -22,7 +22,10 @@ Case (driver "attacher"):
      ["n_new", a, b, c, d]   a new connection reaches tor: a -> kind/target (NEW, NEWRESOLVE, *.exit, names
                              merely containing ".exit"), b -> the attacher's answer for it
                              (ANSWER_KINDS[b%9] x delivery (b//9)%3: at once / Deferred already fired / fired
-                             by a later d_fire), c -> which circuit, d -> source address, sub-attacher answers
+                             by a later d_fire), c -> which circuit, d -> source address, sub-attacher answers;
+                             (b//27)%10 -> what the attacher does to the attacher slot from inside attach_stream()
+                             before it answers: 6,7 set_attacher(None) (a one-shot attacher), 8 set_attacher(the
+                             other attacher) (must raise RuntimeError, which it swallows), 9 set_attacher(itself)
      ["d_fire", a, c]        the a-th pending answer arrives now (the circuit is picked now; a circuit prepared
                              by d_fresh is used if there is one)
      ["d_fresh", a, b, c]    the attacher behind the a-th pending answer gets itself a fresh circuit: b%3 = 0 tor
@@ -43,7 +46,9 @@ Case (driver "via"):
   steps: world ops and
      ["v_connect", a, b, c]  circuit.stream_via(...).connect(factory) / TorCircuitEndpoint(...).connect(factory)
                              on known circuit a, target b, local address / late TCP connect / API from c
-     ["v_advance", k]        connection k moves one stage: TCP connect, SOCKS method reply delivered (client
+     ["v_advance", k]        ((k//8)%4 == 3 and the stream is about to be announced: its circuit closes first;
+                             (k//8)%4 == 2 and the stream is announced but not answered: it is CLOSED instead;)
+                             connection k moves one stage: TCP connect, SOCKS method reply delivered (client
                              writes its request), tor announces the stream (650 STREAM NEW .. SOURCE_ADDR=<local>),
                              tor carries out the attachment it was told, the exit answers (SUCCEEDED), SOCKS reply
                              delivered
@@ -51,6 +56,10 @@ Case (driver "via"):
                              differing in the port only / in the host only / altogether
      ["t_attach", a, b]      as above
      ["x_set_other"]         state.set_attacher(<a user attacher>) while the internal one is installed
+     ["v_drop", k]           if k%4 == 0: connection k//4's SOCKS connection is reset before tor has read a request
+                             (no stream ever)
+  u_new variant b%7 == 6: the unrelated connection re-uses the local host:port of a via connection whose SOCKS
+  connection is closed by now (it failed because its circuit closed first, was reset, or succeeded and ended)
 """
 from __future__ import annotations
 
@@ -81,11 +90,15 @@ RULE = ("Model-based, two generated families over the reference tor world (snaps
         "that did not exist when the stream appeared (launched by tor, or obtained with state.build_circuit(), and "
         "driven to BUILT or only part of the way between question and answer); attacher objects may be falsy "
         "(class with __len__ -> 0 or __bool__ -> False) and the PriorityAttacher may be installed while still "
-        "empty, its sub-attachers being added by later steps. "
+        "empty, its sub-attachers being added by later steps; from inside attach_stream() an attacher may remove "
+        "itself (one-shot), try to install the other attacher (must be refused) or install itself again, and the "
+        "application may remove the attacher while late answers are outstanding. "
         "'via': several concurrent Circuit.stream_via()/TorCircuitEndpoint connects over fake SOCKS connections "
         "with distinct local addresses (stages: TCP connect, method reply, tor announces the stream, SOCKS "
-        "reply), interleaved with unrelated streams to the same target whose source differs in port or host "
-        "only, and with the circuits building/closing. Oracle: ATTACHSTREAM lines per stream id, attacher "
+        "reply, end of the connection), interleaved with unrelated streams to the same target whose source differs "
+        "in port or host only - or is the very local address of a via connection that is closed by now (reset "
+        "before tor read a request, failed because its circuit closed first, refused, or succeeded and ended) - "
+        "and with the circuits building/closing. Oracle: ATTACHSTREAM lines per stream id, attacher "
         "consultations, error reports, SETCONF __LeaveStreamsUnattached lines, RuntimeError on a second "
         "attacher, outcome of every connect. Non-trivial = ('attacher') >=3 judged new streams and (an answer "
         "delivered at a later step or >=3 different answer classes); ('via') >=2 connects whose SOCKS "
@@ -106,8 +119,13 @@ ASSUMPTIONS = [
     "SETEVENTS) may get zero or one decision of any kind and zero or one consultation",
     "after a DETACHED event for a stream, one further consultation/decision per DETACHED is tolerated "
     "(tor waits for the controller again); the current code makes none",
-    "an answer that arrives after its stream was reported CLOSED/FAILED, or after the attacher that gave it "
-    "was removed, may or may not be sent, and an invalid one need not be reported",
+    "an answer that arrives after its stream was reported CLOSED/FAILED may or may not be sent, and an invalid "
+    "one need not be reported",
+    "a stream announced while an attacher was installed still gets its decision when that attacher is removed "
+    "(by the application, or by itself from inside attach_stream) before its answer is processed - tor keeps "
+    "holding such a stream, so 'nothing' would hang it: a valid circuit answer must lead to that circuit or to "
+    "'let Tor choose' (ATTACHSTREAM id 0, the defensible fallback once nobody is in charge), None to 'let Tor "
+    "choose', DO_NOT_ATTACH to nothing, an invalid answer to nothing or 'let Tor choose' (report not required)",
     "'reported' = at least one twisted log error event or anything printed to stdout/stderr between the "
     "delivery of the answer and the end of that step (after a garbage collection); reports for valid answers "
     "are not forbidden",
@@ -125,7 +143,8 @@ ASSUMPTIONS = [
     "consultations of the PriorityAttacher itself are not counted (only that a removed sub-attacher is never "
     "asked and none is asked twice for one stream)",
     "via-circuit connects use IPv4 local addresses, host names / IPv4 targets that are not *.exit, no TLS; a "
-    "local (host, port) pair is never reused within a case, neither by a later connect nor by an unrelated "
+    "local (host, port) pair is reused (by an unrelated stream only) only after the SOCKS connection that had "
+    "it is closed, and at most once; otherwise never, neither by a later connect nor by an unrelated "
     "stream",
     "via-circuit: when the connect's circuit is BUILT as the stream is announced exactly 'ATTACHSTREAM id "
     "<that circuit>' is required; when the circuit is live but not BUILT (cannibalised) nothing or that line; "
@@ -179,7 +198,8 @@ def _steps(world_ops, own, min_size, max_size):
 
 OWN_A = {"n_new": (7, 4), "d_fire": (4, 2), "d_fresh": (2, 3), "x_set": (1, 1), "t_attach": (3, 2),
          "p_remove": (1, 1), "p_add": (2, 1), "x_via": (1, 1)}
-OWN_B = {"v_connect": (3, 3), "v_advance": (8, 1), "u_new": (3, 3), "t_attach": (4, 2), "x_set_other": (1, 0)}
+OWN_B = {"v_connect": (3, 3), "v_advance": (8, 1), "u_new": (4, 3), "t_attach": (4, 2), "x_set_other": (1, 0),
+         "v_drop": (1, 1)}
 WORLD_OPS_B = dict(WORLD_OPS_A, c_progress=6, s_succeeded=5)
 
 
@@ -252,6 +272,9 @@ class SRec(object):
         self.sub_answers = None
         self.losers = set()
         self.fresh = False              # the answer names a circuit that did not exist when the stream appeared
+        self.after_removal = False      # the answer was processed after the asked attacher had been removed
+        self.inside = None              # what the attacher did to the slot from inside attach_stream
+        self.reuses = None              # via: Conn whose (closed) local address this unrelated stream re-uses
 
     def __repr__(self):
         return "<stream %d first %s under %s>" % (self.sid, self.first_status, self.installed)
@@ -283,6 +306,7 @@ class Conn(object):
         self.open_at = None             # step index at which its SOCKS connection was made
         self.announced_at = None
         self.status_at_new = None       # 'BUILT' | 'live' | 'gone'
+        self.reused = False             # an unrelated stream re-used its local address after it was closed
 
 
 # --------------------------------------------------------------------------- common driver machinery
@@ -480,10 +504,21 @@ class Run(object):
         else:
             ok = {()}
             rec.need_report = True
-        if rec.m.gone is not None or self.installed != rec.installed:
+        if rec.m.gone is not None:
             ok = set(ok) | {()}
             rec.need_report = False
-            self.res.label("answer-after-stream-gone-or-attacher-removed")
+            self.res.label("answer-after-stream-gone")
+        elif self.installed != rec.installed:
+            # the attacher that was asked is not installed any more: the stream is still tor's to hold
+            rec.after_removal = True
+            self.res.label("answer-after-attacher-removed" + ("/from-inside-attach_stream" if rec.inside else ""))
+            if label == "None" or label == "DO_NOT_ATTACH":
+                pass
+            elif valid:
+                ok = set(ok) | {(0,)}
+            else:
+                ok = set(ok) | {(0,)}
+                rec.need_report = False
         rec.ok = ok
 
     # -- final judgement of one stream
@@ -576,11 +611,17 @@ class Run(object):
             res.bad("no-decision/host-merely-contains-.exit", text)
         elif rec.own_of is not None:
             res.bad("via/own-stream-" + ("not-attached" if not got else "sent-elsewhere"), text)
+        elif rec.installed == "internal" and rec.reuses is not None:
+            res.bad("via/stale-entry-catches-reused-source-address", text + " - the stream re-uses the local "
+                    "address of via connection %d, whose SOCKS connection is closed" % rec.reuses.k)
         elif rec.installed == "internal":
             res.bad("via/unrelated-stream-" + ("captured" if got and got[0] != 0 else "not-left-to-tor"), text)
         elif rec.losers and got in rec.losers:
             res.bad("priority-attacher-order", text + " - that is the answer of a less important sub-attacher "
                     "(priorities %r)" % (self.case["prio"],))
+        elif rec.after_removal and got == () and ans in ("None", "circuit-BUILT"):
+            res.bad("answer-dropped-because-attacher-was-removed", text + " - the stream appeared while the "
+                    "attacher was installed; the attacher was removed before its answer was processed")
         elif rec.fresh and ans == "circuit-BUILT" and got == ():
             res.bad("circuit-newer-than-the-stream-rejected", text + " - the circuit was launched after the stream "
                     "appeared and is known to the state and BUILT now")
@@ -727,6 +768,7 @@ class AttacherRun(Run):
         b, c, d = rec.plan
         kind = ANSWER_KINDS[b % 9]
         delivery = (b // 9) % 3
+        self.inside_action(name, rec, (b // 27) % 10)
         if delivery == 2:
             from twisted.internet import defer
             dfr = defer.Deferred()
@@ -745,6 +787,39 @@ class AttacherRun(Run):
             from twisted.internet import defer
             return ("value", defer.succeed(value))
         return ("value", value)
+
+    def inside_action(self, name, rec, sel):
+        """What the attacher does to the attacher slot from inside its attach_stream()."""
+        if sel < 6 or self.installed != name:
+            return
+        other = {"A": "B", "B": "A"}[name]
+        if sel in (6, 7):
+            rec.inside = "remove"
+            try:
+                self.state.set_attacher(None, self.reactor)
+            except Exception as e:
+                self.res.bad("set_attacher-raised", "set_attacher(None) from inside attach_stream: %r" % (e,))
+            self.installed = None
+            self.expect_setconf.append("0")
+            self.res.label("inside-attach_stream:removes-itself")
+        elif sel == 8:
+            rec.inside = "second"
+            try:
+                self.state.set_attacher(self.attachers[other], self.reactor)
+            except RuntimeError:
+                self.res.label("inside-attach_stream:second-attacher-refused")
+            else:
+                self.res.bad("second-attacher-accepted", "set_attacher(%s) from inside %s.attach_stream raised "
+                             "nothing" % (other, name))
+                self.installed = other
+        else:
+            rec.inside = "same"
+            try:
+                self.state.set_attacher(self.attachers[name], self.reactor)
+            except RuntimeError as e:
+                self.res.bad("set_attacher-raised", "set_attacher(same) from inside attach_stream: %r" % (e,))
+            self.expect_setconf_optional.append("1")
+            self.res.label("inside-attach_stream:installs-itself-again")
 
     def on_sub_consult(self, idx, stream):
         rec = self.by_sid.get(getattr(stream, "id", None))
@@ -981,6 +1056,8 @@ class AttacherRun(Run):
                 where, [x[0] for x in self.world.setconf_log[n0:]]))
 
     via_tried = False
+    expect_setconf = ()
+    expect_setconf_optional = ()
 
     def x_set(self, a):
         res = self.res
@@ -1066,10 +1143,23 @@ class AttacherRun(Run):
                 return
             self.step_no = i
             n_before = len(self.world.setconf_log)
+            self.expect_setconf = []
+            self.expect_setconf_optional = []
             self.step(s)
-            if s[0] not in ("x_set", "x_via") and len(self.world.setconf_log) != n_before:
-                self.res.bad("unexpected-setconf", "step %d %r wrote %r" % (
-                    i, s, [x[0] for x in self.world.setconf_log[n_before:]]))
+            if s[0] not in ("x_set", "x_via"):
+                vals = []
+                for line, pairs in self.world.setconf_log[n_before:]:
+                    vals.extend(v if k.lower() == "__leavestreamsunattached" else "?" + line
+                                for k, v in (pairs or [("?", None)]))
+                rest = list(vals)
+                for v in self.expect_setconf_optional:
+                    if v in rest and rest != self.expect_setconf:
+                        rest.remove(v)
+                if rest != self.expect_setconf:
+                    tag = "unexpected-setconf" if len(rest) > len(self.expect_setconf) else \
+                        "removal-without-leave-streams-unattached-0"
+                    self.res.bad(tag, "step %d %r wrote %r, expected __LeaveStreamsUnattached values %r" % (
+                        i, s, [x[0] for x in self.world.setconf_log[n_before:]], self.expect_setconf))
         if not self.res.ok:
             return
         self.finish()
@@ -1145,11 +1235,38 @@ class ViaRun(Run):
             self.v_connect(s[1], s[2], s[3])
         elif op == "v_advance":
             if self.conns:
-                self.advance(self.conns[s[1] % len(self.conns)])
+                conn = self.conns[s[1] % len(self.conns)]
+                if (s[1] // 8) % 4 == 3 and conn.rec is None and conn.sock.request is not None and \
+                        conn.stream_due and conn.circ_m.gone is None:
+                    # its circuit dies just before tor announces the stream
+                    cs = self.world.close_step_for(conn.circ_m)
+                    if cs is not None:
+                        self.world_step(cs)
+                        self.res.label("via:circuit-closes-just-before-the-stream-is-announced")
+                if (s[1] // 8) % 4 == 2 and conn.rec is not None and conn.replied is None and \
+                        conn.rec.m.gone is None:
+                    # the connection attempt ends here (tor reports the stream CLOSED and refuses the SOCKS request)
+                    cs = self.world.close_step_for(conn.rec.m)
+                    if cs is not None:
+                        self.world_step(cs)
+                        self.res.label("via:stream-ends-before-it-succeeded")
+                        self.tor_socks_side()
+                        return
+                self.advance(conn)
         elif op == "u_new":
             self.u_new(s[1], s[2], s[3])
         elif op == "t_attach":
             self.t_attach(s[1], s[2])
+        elif op == "v_drop":
+            if self.conns and s[1] % 4 == 0:
+                conn = self.conns[(s[1] // 4) % len(self.conns)]
+                sock = conn.sock
+                if sock.established and not sock.lost and conn.rec is None and conn.stream_due:
+                    # reset before tor has read a request: tor never announces a stream for it
+                    conn.stream_due = False
+                    sock.lose()
+                    self.settle()
+                    self.res.label("via:socks-connection-reset-before-any-stream")
         elif op == "x_set_other":
             if self.installed == "internal":
                 try:
@@ -1253,6 +1370,11 @@ class ViaRun(Run):
             s = self.world.progress_step_for(conn.rec.m, self.step_no)
             if s is not None:
                 self.world_step(s)
+        elif push and conn.replied == "success" and conn.reply_delivered and conn.rec.m.gone is None:
+            # the connection has served its purpose: it ends (tor reports the stream CLOSED and closes the socket)
+            s = self.world.close_step_for(conn.rec.m)
+            if s is not None:
+                self.world_step(s)
 
     def deliver_reply(self, conn):
         sock = conn.sock
@@ -1290,13 +1412,28 @@ class ViaRun(Run):
         else:
             host, port = VIA_TARGETS[a % len(VIA_TARGETS)]
             lh, lp = "127.0.0.1", 40000
-        variant = b % 6
-        if variant in (0, 1):
-            src = self.free_local(lh, lp + 1 if variant == 0 else LOCAL_PORTS[(b // 6) % len(LOCAL_PORTS)])
+        variant = b % 7
+        reuses = None
+        if variant == 6:
+            ended = [x for x in self.conns if x.sock.established and x.sock.lost and not x.reused]
+            if not ended:
+                variant = 0
+            else:
+                reuses = ended[(b // 7) % len(ended)]
+                reuses.reused = True
+                src = reuses.sock.local
+                label = "re-uses-address-of-closed-via-connection/" + (
+                    "never-announced" if reuses.rec is None else
+                    "circuit-was-gone" if reuses.status_at_new == "gone" else
+                    "connect-" + ("succeeded" if reuses.watch.succeeded else "failed"))
+        if variant == 6:
+            pass
+        elif variant in (0, 1):
+            src = self.free_local(lh, lp + 1 if variant == 0 else LOCAL_PORTS[(b // 7) % len(LOCAL_PORTS)])
             label = "same-host-other-port"
         elif variant in (2, 3):
             others = [h for h in ["127.0.0.1", "10.0.0.5", "192.168.1.77", "127.0.0.2"] if h != lh]
-            h2 = others[(b // 6) % len(others)]
+            h2 = others[(b // 7) % len(others)]
             if (h2, lp) in self.used_locals:
                 return
             self.used_locals.add((h2, lp))
@@ -1306,7 +1443,7 @@ class ViaRun(Run):
             src = ("(Tor_internal)", 0)
             label = "tor-internal"
         else:
-            s0 = torworld.SOURCES[(b // 6) % len(torworld.SOURCES)]
+            s0 = torworld.SOURCES[(b // 7) % len(torworld.SOURCES)]
             h2, _, p2 = s0.rpartition(":")
             if h2 in ("(Tor_internal)", "::1"):
                 src = (h2, int(p2))
@@ -1324,6 +1461,7 @@ class ViaRun(Run):
         if rp is None:
             return
         rec = self.rec_of(rp.obj)
+        rec.reuses = reuses
         self.expect_internal(rec)
         if self.installed == "internal":
             self.unrelated += 1
@@ -1333,6 +1471,11 @@ class ViaRun(Run):
     def tor_socks_side(self):
         """tor answers the SOCKS request of a connection whose stream succeeded / went away."""
         for conn in self.conns:
+            if conn.rec is not None and conn.replied == "success" and conn.reply_delivered and \
+                    conn.rec.m.gone is not None and not conn.sock.lost:
+                conn.sock.lose()                    # the stream ended: tor closes the SOCKS connection
+                self.settle()
+                self.res.label("via:connection-closed-after-success")
             if conn.rec is None or conn.replied is not None:
                 continue
             m = conn.rec.m
@@ -1482,7 +1625,7 @@ MUTANTS = [
      "        k = next((x for x in self._circuit_targets if x[1] == stream.source_port), None)\n        try:\n"
      "            circuit, d = self._circuit_targets.pop(k)"),
     ("via-connect-does-not-wait-for-attachment", "txtorcon/circuit.py",
-     "        proto = yield connect_d\n        yield attached_d\n", "        proto = yield connect_d\n"),
+     "            proto = yield connect_d\n            yield attached_d\n", "            proto = yield connect_d\n"),
     ("via-unrelated-streams-left-unattached", "txtorcon/circuit.py",
      "        except KeyError:\n            return\n\n        try:\n            yield circuit.when_built()",
      "        except KeyError:\n            from txtorcon.torstate import TorState\n"
@@ -1546,6 +1689,14 @@ MUTANTS = [
      "    def attach_stream(self, stream, circuits):\n        if not getattr(self, '_seen', None):\n"
      "            self._seen = [len(self._attacher_to_entry) > 0]\n"
      "        if not self._seen[0]:\n            return None\n        # a heap's"),
+    ("answer-dropped-when-the-attacher-was-removed-meanwhile", "txtorcon/torstate.py",
+     "            if circ is TorState.DO_NOT_ATTACH:\n",
+     "            if circ is TorState.DO_NOT_ATTACH or self._attacher is None:\n"),
+    ("via-entry-kept-after-a-failed-connection", "txtorcon/circuit.py",
+     "            attacher._forget(attached_d)\n", "            pass\n"),
+    ("via-entry-looked-up-but-never-removed", "txtorcon/circuit.py",
+     "        try:\n            circuit, d = self._circuit_targets.pop(k)\n        except KeyError:\n            return\n",
+     "        try:\n            circuit, d = self._circuit_targets[k]\n        except KeyError:\n            return\n"),
     ("attachstream-names-the-wrong-stream", "txtorcon/torstate.py",
      '                    u"ATTACHSTREAM {} {}".format(stream.id, circ.id).encode("ascii")',
      '                    u"ATTACHSTREAM {} {}".format(circ.id, stream.id).encode("ascii")'),
